@@ -146,7 +146,8 @@ def atlas_body_docs():
     upload = obj({"title": {"type": "string"}, "count": {"type": "integer"}, "flag": {"type": "boolean"}, "when": {"type": "string", "format": "date"},
                   "kind": {"$ref": REF + "Color"}, "tags": arr({"type": "string"}), "meta": {"$ref": REF + "Other"}, "ratio": {"type": "number"},
                   "ref_or_text": {"oneOf": [{"type": "integer"}, {"type": "string"}]}, "maybe_note": any_of({"type": "string"}, NULL),
-                  "stamp": {"type": "string", "format": "date-time"}, "uid": {"type": "string", "format": "uuid"}, "lvl": any_of({"$ref": REF + "Level"}, NULL)},
+                  "stamp": {"type": "string", "format": "date-time"}, "uid": {"type": "string", "format": "uuid"}, "lvl": any_of({"$ref": REF + "Level"}, NULL),
+                  "attachment": {"type": "string", "format": "binary"}},
                  required=["title", "count"])
     nullfirst = obj({"a": {"anyOf": [NULL, {"type": "string"}]}, "b": any_of({"type": "string"}, NULL)}, required=["a", "b"])
     extra = {"components": {"requestBodies": {"ItemBody": {"content": {"application/json": {"schema": {"$ref": REF + "Item"}}}, "required": True},
@@ -329,7 +330,7 @@ def to_marker(v):
         return {"@enum": [v[1], v[2]]}
     if t == "model":
         from lib.absprop import to_runner_json
-        return {"@model": [v[1], to_runner_json(v[2])]}
+        return {"@model": [v[1], to_runner_json(v[2])] + ([v[3]] if len(v) > 3 else [])}
     if t == "list":
         return {"@list": [to_marker(x) for x in v[1]]}
     if t == "file":
